@@ -73,3 +73,19 @@ package redis
 //@ loop 1 invariant q != nil && q == old(q) && conn != nil && q.readCache != nil && q.readCache == old(q.readCache) && q.clientID == old(q.clientID) && beginIndex == old(q.current) && q.current == beginIndex + $k + 1 && len(elems) == $k + 1 && q.inflightDrained == old(q.inflightDrained) && q.inflightExpiry == old(q.inflightExpiry)
 //@ ensures [C09] err == nil ==> q.current == old(q.current) + len(elems)
 //@ ensures [C09] err == nil && !q.inflightDrained ==> !old(q.inflightDrained)
+
+// Add, as far as the bookkeeping of a sacrificed element goes (C10: the counters the queue reports equal its contents):
+// the new element is pushed at the tail of this client's list unless it is itself the one that is dropped; an element
+// that is sacrificed is removed from the list by its exact bytes, once; and when the sacrificed element was in flight
+// (its lifetime ran out while it waited for its acknowledgement) the queue forgets that it ever handed it out — its
+// identifier leaves the read cache, so that a late acknowledgement cannot count it out a second time.
+//@ func (*Queue).Add
+//@ props C10 C09
+//@ requires [C10] q != nil && elem != nil && q.pool != nil && q.cond != nil && q.cond.L != nil && q.notifier != nil && q.readCache != nil
+//@ modifies heap, ghostall(redigo.Conn.$cmds), ghostall(redigo.Conn.$lastCmd), ghostall(redigo.Conn.$flushes), ghostall(redigo.Conn.$lastInt), ghost(q.notifier.$queued), ghost(q.notifier.$inflight), ghost(q.notifier.$drops), ghost(q.notifier.$lastDrop), ghost(q.notifier.$lastErr)
+//@ waive panic nil index bounds assert-type overflow requires
+//@ loop 1 invariant q != nil && q == old(q) && conn != nil && q.readCache == old(q.readCache) && q.notifier == old(q.notifier) && q.clientID == old(q.clientID) && drop && dropErr == queue.ErrDropQueueFull
+//@ call Add$2.Conn.Send#1 assert [C10] commandName == "lrem" && len(args) == 3 && args[0].(type string) && args[0].(string) == concat("queue:", q.clientID) && args[1].(type int) && args[1].(int) == 1 && args[2].(type []byte) && drop
+//@ call Add$2.Conn.Send#2 assert [C10 C09] commandName == "rpush" && len(args) == 2 && args[0].(type string) && args[0].(string) == concat("queue:", q.clientID) && args[1].(type []byte)
+//@ ensures [C10] drop && dropErr == queue.ErrDropExpiredInflight && dropElem != nil && dropElem.MessageWithID.(type *queue.Publish) && dropElem.MessageWithID.(*queue.Publish) != nil && dropElem.MessageWithID.(*queue.Publish).Message != nil ==> !has(q.readCache, dropElem.MessageWithID.(*queue.Publish).Message.PacketID)
+//@ ensures [C10] drop && dropErr == queue.ErrDropExpiredInflight && dropElem != nil && dropElem.MessageWithID.(type *queue.Pubrel) && dropElem.MessageWithID.(*queue.Pubrel) != nil ==> !has(q.readCache, dropElem.MessageWithID.(*queue.Pubrel).PacketID)
